@@ -2,6 +2,7 @@ import Proofs.Ledger.NodesExamples
 import Proofs.Ledger.NodesUnstake
 import Proofs.Ledger.NodesWaiting
 import Proofs.Ledger.NodesLog
+import Proofs.Ledger.AppsUnstakeC24
 /-!
 # C24 — Unstaking returns the stake exactly once, and only when due (node part)
 
@@ -156,5 +157,38 @@ example :
     let s1 := step (endBlock (step Ex.s0 (.beginUnstake Ex.A Ex.A)) 4 2000).1 (.burn Ex.A 1000000)
     getQ s1 2100 = [Ex.A, Ex.A] ∧ balOf (endBlock s1 5 2100).1 Ex.O = 19000000 ∧
     (endBlock s1 5 2100).1.pool = s1.pool - 19000000 := by decide
+
+/-! ## Application half (model `PocketModel/Ledger/Apps.lean`, lemmas `Proofs/Ledger/AppsQueue.lean` of the
+applications package and `Proofs/Ledger/AppsUnstakeC24.lean`) -/
+
+/-- application: leaves the staked state only through its **own** begin-unstake request — the message is
+accepted only when signed by the application itself, for a staked, unjailed record -/
+theorem app_leaves_staked_only_via_own_request (s : Apps.St) (signer a : Apps.Addr) (fee : Int)
+    (hok : (Apps.deliverUnstake s signer a fee).1 = .ok) :
+    signer = a ∧ ∃ s1 app, Apps.deductFee s signer fee = (.ok, s1) ∧ Apps.get s1.apps a = some app ∧
+      app.status = Apps.stStaked ∧ app.jailed = false :=
+  Apps.deliverUnstake_ok_requires hok
+
+/-- application: the payout is the whole stake, to the application's own address, and deletes the record
+(the pool covers every stake: `Props/C20`) -/
+theorem app_payout_exact (s : Apps.St) (a : Apps.Addr) (app : Apps.App) (hp : app.tokens ≤ s.pool) :
+    Apps.get (Apps.finishUnstaking s a app).apps a = none ∧ (Apps.finishUnstaking s a app).pool = s.pool - app.tokens ∧
+    Apps.balOf (Apps.finishUnstaking s a app) a = Apps.balOf s a + app.tokens :=
+  Apps.finishUnstaking_pays s a app hp
+
+/-- application: exactly once — a further queue entry for the same address changes nothing -/
+theorem app_payout_once (s : Apps.St) (a : Apps.Addr) (l : List Apps.Addr) (ha : a ∈ l) :
+    Apps.matureOne (Apps.matureOne s a) a = Apps.matureOne s a ∧
+    (l ++ [a]).foldl Apps.matureOne s = l.foldl Apps.matureOne s :=
+  ⟨Apps.matureOne_idem s a, Apps.dup_entry_noop l s a ha⟩
+
+/-- application: paid in the **first** block whose time is at or after the completion time — after the end
+blocker at block time `s.time` no unstaking, unjailed application with completion time `≤ s.time` is left,
+provided every unstaking application is queued under its completion time (partial: that queue invariant is
+monitored on the implementation, `app-unstaking-not-queued`, not proved over histories of the applications model) -/
+theorem app_no_overdue_after_endblock_partial (s : Apps.St) (hq : Apps.QueueComplete s) (a : Apps.Addr) (app : Apps.App)
+    (hg : Apps.get (Apps.endBlock s).apps a = some app) (hs : app.status = Apps.stUnstaking) (hj : app.jailed = false) :
+    s.time < app.unstakingTime :=
+  Apps.endBlock_noOverdue hq a app hg hs hj
 
 end C24
